@@ -66,7 +66,10 @@ def _m_in_re(ip, args, kwargs, node):
         return _re.fullmatch(pattern, s) is not None
     if not (isinstance(s, SV) and s.is_str()):
         return False
-    return wrap(z3.InRe(s.t, Pat.of(_re.compile(pattern)).body_lang()))
+    pat = Pat.of(_re.compile(pattern))
+    if structural_member(ip, s.t, pat):
+        return True
+    return wrap(z3.InRe(s.t, pat.body_lang()))
 
 
 @models.model(elem_at)
@@ -133,3 +136,44 @@ def _m_int_of_str(ip, args, kwargs, node):
     ip.ctx.assume(z3.Implies(z3.InRe(v.t, models.DIGITS1), r == z3.StrToInt(v.t)))
     models.str_to_int_facts_guarded(ip, v.t, r)
     return SV(r)
+
+
+def structural_member(ip, t, pat):
+    """sufficient condition for  t in Lang(pat): t is a concatenation whose parts (literals / variables with a language fact)
+    can be aligned with consecutive items of the pattern's top-level sequence by language inclusion"""
+    from .rx import _flat_parts
+    from .ctx import lang_relation
+    from .api import zstr
+    try:
+        items = list(pat.tree)
+        if pat.has_assert(items):
+            return False
+        parts = _flat_parts(t)
+        langs = []
+        for p in parts:
+            if z3.is_string_value(p):
+                langs.append(z3.Re(zstr(p)))
+            else:
+                L = ip.ctx.lang_of.get(p.get_id())
+                if L is None:
+                    return False
+                langs.append(L)
+        n = len(items)
+        memo = {}
+
+        def go(i, a):
+            if i == len(langs):
+                return a == n or lang_relation(z3.Re(''), pat.lang_items(items[a:])) is True
+            key = (i, a)
+            if key in memo:
+                return memo[key]
+            ok = False
+            for b in range(a, n + 1):
+                if lang_relation(langs[i], pat.lang_items(items[a:b]) if b > a else z3.Re('')) is True and go(i + 1, b):
+                    ok = True
+                    break
+            memo[key] = ok
+            return ok
+        return go(0, 0)
+    except Exception:
+        return False
